@@ -263,6 +263,23 @@ Theorem C17_handshake_buffer_bounded :
 Proof. exact handshake_buffer_bounded. Qed.
 Print Assumptions C17_handshake_buffer_bounded.
 
+(* receiverEncHandshake answers only for a packet readHandshakeMsg accepted and whose
+   initiator id is a curve point, whose static key agreement succeeded and whose
+   signature recovers a key (the three primitives are parameters; the staging is the claim) *)
+Theorem C17_receiver_handshake_ok : forall (read : hclass) (id_on_curve ecdh_ok sig_recovers : bool),
+  receiver_handshake read id_on_curve ecdh_ok sig_recovers = RcOk ->
+  (read = HPlain \/ read = HOk) /\ id_on_curve = true /\ ecdh_ok = true /\ sig_recovers = true.
+Proof. exact receiver_handshake_ok. Qed.
+Print Assumptions C17_receiver_handshake_ok.
+
+(* readProtocolHandshake accepts only a message of at most 2 KiB with code 0 whose body
+   decodes as protoHandshake and carries a non-zero 64-byte node id *)
+Theorem C17_protocol_handshake_ok : forall (code size : N) (payload id : bytes),
+  read_protocol_handshake code size payload = PhOk id ->
+  size <= 2048 /\ code = 0 /\ lenN id = 64 /\ exists b, In b id /\ b2n b <> 0.
+Proof. exact protocol_handshake_ok. Qed.
+Print Assumptions C17_protocol_handshake_ok.
+
 (* ---- aqua sub-protocol limits ---- *)
 Theorem C17_gate_rejects_oversize : forall code size,
   protocol_max_msg_size < size -> handle_gate code size = GTooLarge.
